@@ -1106,7 +1106,8 @@ class UnknownNode:
         if typ != _Any:
             recognized_types, result = self.__recognizer.recognize(
                 attr_node, cast(Type, typ))
-            if len(recognized_types) == 0:
+            # like when loading, it has to be exactly one type
+            if len(recognized_types) != 1:
                 raise RecognitionError(format_rec_error(result))
 
     def require_attribute_value(
